@@ -40,6 +40,9 @@ PROPOSED_KNOWN = [
 FAMS = ["valuelit"]
 MC_INVS = ["PrintParse", "ModelMeetsRefExceptAsFound", "FixRemovesNonFinite", "ModelAlwaysParses"]
 PAR = max(2, min(8, rig.NCPU // 2))
+# the oracle guard (encoding/json decodes the rendered text to the data it produces itself) can overrule the judge only
+# on questions of DATA; it cannot see key order, and it has nothing to say about what is not JSON
+ORACLE_DECIDES = {"different-data", "nil-byte-slice-as-empty-string", "embedded-struct-not-flattened", "time-subsecond-dropped"}
 QUICK_ALL_CTX = 120        # quick tier: descriptors 1..120 (leaves, first containers) in all four contexts, the rest in two
 RULE = ("every value descriptor of depth <= Depth with fan-out <= 2 over the leaf and container menus of MC_ValueLit.tla (exported "
         "by TLC; thorough: every ordered pair of leaves in every container kind) x 4 contexts (<script>, .js, .json, "
@@ -260,7 +263,7 @@ def run(ctx, replay_case=None):
             b["oracle"] = orc.get(i + 1, "na")
             # encoding/json decodes the rendered text to the data it produces itself for this value, and the spec
             # disagrees: the spec is wrong, not the code
-            (disputed if b["oracle"] == "agree" else confirmed).append(b)
+            (disputed if b["oracle"] == "agree" and b["sig"]["cause"] in ORACLE_DECIDES else confirmed).append(b)
         ctx.cov["unreproduced"] = len(bads) - len(confirmed) - len(disputed)
         ctx.cov["oracle_guard"] = {"consulted": len(cobs), "agree_with_code": len(disputed)}
         if disputed:
